@@ -13,9 +13,13 @@ for spec in "$@"; do echo "$spec" >> $LIST; done
 unshare -m bash -c "
   mount --bind $S/repo /repo && mount --bind $S/verif /verif || exit 2
   cd /verif
-  while IFS='|' read wt letter id prop flags tc; do
+  while IFS='|' read wt letter id prop flags tc props; do
     echo \"=== \$id (\$prop) from \$wt/mutant_\$letter.diff\"
-    python3 /verif/tools/seed.py \$wt \$letter \$id \$prop $TIER --demo-flags \"\$flags\" --demo-toolchain \"\$tc\" 2>&1 | grep -v '^\$'
+    if [ -n \"\$props\" ]; then
+      python3 /verif/tools/seed.py \$wt \$letter \$id \$prop $TIER --demo-flags \"\$flags\" --demo-toolchain \"\$tc\" --props \"\$props\" 2>&1 | grep -v '^\$'
+    else
+      python3 /verif/tools/seed.py \$wt \$letter \$id \$prop $TIER --demo-flags \"\$flags\" --demo-toolchain \"\$tc\" 2>&1 | grep -v '^\$'
+    fi
   done < $LIST
 " > $S/log.txt 2>&1
 mkdir -p /verif/seeded
